@@ -587,6 +587,7 @@ def run(ctx):
         if nontrivial:
             distinct.add(canon_hash({k: v for k, v in c.items() if k != "n"}))
 
+    ctx.coq_build(["theories/C32/Model.vo"])
     res, cout = coq_compare(ctx, cases, outs, orders)
     if res is None:
         ctx.tie_broken("model evaluation (cases_C32.v did not evaluate)", cout)
